@@ -25,7 +25,9 @@ if os.path.realpath(REPO) != '/repo':
     import shutil
     import tempfile
     _private = os.path.join(tempfile.gettempdir(), 'verif-lean-%d' % os.getpid())
-    subprocess.run(['cp', '-a', LEAN_DIR, _private], check=True)
+    # VERIF_LEAN_SRC: copy from a frozen snapshot of the Lean project instead (re-checks of many seeds in the background
+    # while /verif/lean is being edited)
+    subprocess.run(['cp', '-a', os.environ.get('VERIF_LEAN_SRC', LEAN_DIR), _private], check=True)
     LEAN_DIR = _private
     _owner = os.getpid()
     atexit.register(lambda: os.getpid() == _owner and shutil.rmtree(_private, ignore_errors=True))
@@ -207,13 +209,14 @@ def load_known(prop_id):
 # Source tie: which generated-from-source modules (MidoProofs/SrcTie/*.lean over MidoModel/Generated/Src.lean,
 # written by harness/py2lean.py on every run) belong to which property, and which source files they render.
 SRC_TIE = {
-    'C01': ['Codec'], 'C02': ['Codec'], 'C03': ['Codec'],
+    'C01': ['Codec', 'Msg'], 'C02': ['Codec', 'Msg'], 'C03': ['Codec'],
     'C04': ['Tok'], 'C05': ['Tok'], 'C06': ['Tok'], 'C18': ['Tok'], 'C19': ['Tok'],
     'C07': ['Vlq', 'VlqRead', 'Tracks', 'Writer', 'Reader'], 'C08': ['Vlq', 'VlqRead', 'Writer', 'Reader'], 'C09': ['Meta', 'Vlq'],
     'C12': ['Tracks'], 'C16': ['Tracks'],
 }
 SRC_TIE_FILES = {
     'Codec': ['mido/messages/encode.py', 'mido/messages/decode.py', 'mido/messages/checks.py'],
+    'Msg': ['mido/messages/decode.py', 'mido/messages/encode.py', 'mido/messages/specs.py'],
     'Tok': ['mido/tokenizer.py'],
     'Meta': ['mido/midifiles/meta.py'],
     'Vlq': ['mido/midifiles/meta.py'],
@@ -392,6 +395,24 @@ class Check:
                 reqs.append('pyop idx %d %s' % (i, ' '.join(map(str, xs)))); want.append(py(lambda: xs[i]))
         for n in (-2, 0, 1, 5):
             reqs.append(f'pyop range {n}'); want.append(' '.join(map(str, range(n))))
+        # dicts: insertion order, d[k] = v on an existing key keeps its place, update(), {k: v for ...} with repeated keys
+        keys = ['type', 'time', 'channel', 'note', 'a', 'b']
+        for _ in range(60):
+            d, toks = {}, []
+            for _ in range(rng.randint(1, 6)):
+                kind = rng.choice(['set', 'set', 'upd', 'from'])
+                if kind == 'set':
+                    k, v = rng.choice(keys), rng.randint(-5, 300)
+                    d[k] = v
+                    toks.append(f'set:{k}:{v}')
+                else:
+                    ps = [(rng.choice(keys), rng.randint(-5, 300)) for _ in range(rng.randint(0, 4))]
+                    if kind == 'upd':
+                        d.update(dict(ps) if rng.random() < 0.5 else ps)
+                    else:
+                        d = {k: v for k, v in ps}
+                    toks.append(kind + ':' + ','.join(f'{k}={v}' for k, v in ps))
+            reqs.append('pydict ' + ' '.join(toks)); want.append(','.join(f'{k}={v}' for k, v in d.items()))
         got = self.driver.run(reqs)
         self.compare('pysem (operator semantics of the source translator vs CPython)', reqs, want, got)
         self.count('pysem_operator_cases', len(reqs))
